@@ -56,6 +56,25 @@ def family(usize=2):
        {'lhs': 'X', 'nodes': [], 'edges': [{'label': 'b', 'att': []}], 'ext': []},
        {'lhs': 'Y', 'nodes': [], 'edges': [{'label': 'c', 'att': []}, {'label': 'X', 'att': []}], 'ext': []},
        {'lhs': 'Y', 'nodes': [], 'edges': [{'label': 'd', 'att': []}], 'ext': []}], False)
+    # an SCC of three nonterminals with a chord: A -> p B | q C | e ; B -> r C ; C -> s A.  Block elimination creates fill-in
+    # (B->C->A gives a B->A entry that was not there), in an order that depends on the insertion order of A's rules
+    g('three_cycle_chord', {'S': [], 'A': [], 'B': [], 'C': []}, {'p': [], 'q': [], 'e': [], 'r': [], 's': []},
+      [{'lhs': 'S', 'nodes': [], 'edges': [{'label': 'A', 'att': []}], 'ext': []},
+       {'lhs': 'A', 'nodes': [], 'edges': [{'label': 'p', 'att': []}, {'label': 'B', 'att': []}], 'ext': []},
+       {'lhs': 'A', 'nodes': [], 'edges': [{'label': 'q', 'att': []}, {'label': 'C', 'att': []}], 'ext': []},
+       {'lhs': 'A', 'nodes': [], 'edges': [{'label': 'e', 'att': []}], 'ext': []},
+       {'lhs': 'B', 'nodes': [], 'edges': [{'label': 'r', 'att': []}, {'label': 'C', 'att': []}], 'ext': []},
+       {'lhs': 'C', 'nodes': [], 'edges': [{'label': 's', 'att': []}, {'label': 'A', 'att': []}], 'ext': []}], True)
+    # four nonterminals, two chords: A -> B | C | e ; B -> C | D ; C -> D ; D -> A  (each with its own weight)
+    g('four_cycle_chords', {'S': [], 'A': [], 'B': [], 'C': [], 'D': []}, {'p': [], 'q': [], 'e': [], 'r': [], 'u': [], 'v': [], 'w': []},
+      [{'lhs': 'S', 'nodes': [], 'edges': [{'label': 'A', 'att': []}], 'ext': []},
+       {'lhs': 'A', 'nodes': [], 'edges': [{'label': 'p', 'att': []}, {'label': 'B', 'att': []}], 'ext': []},
+       {'lhs': 'A', 'nodes': [], 'edges': [{'label': 'q', 'att': []}, {'label': 'C', 'att': []}], 'ext': []},
+       {'lhs': 'A', 'nodes': [], 'edges': [{'label': 'e', 'att': []}], 'ext': []},
+       {'lhs': 'B', 'nodes': [], 'edges': [{'label': 'r', 'att': []}, {'label': 'C', 'att': []}], 'ext': []},
+       {'lhs': 'B', 'nodes': [], 'edges': [{'label': 'u', 'att': []}, {'label': 'D', 'att': []}], 'ext': []},
+       {'lhs': 'C', 'nodes': [], 'edges': [{'label': 'v', 'att': []}, {'label': 'D', 'att': []}], 'ext': []},
+       {'lhs': 'D', 'nodes': [], 'edges': [{'label': 'w', 'att': []}, {'label': 'A', 'att': []}], 'ext': []}], True)
     return S
 
 
@@ -110,6 +129,17 @@ def linear_tensor_family():
        {'lhs': 'X', 'nodes': ['T'], 'edges': [{'label': 'a', 'att': [0]}], 'ext': [0]},
        {'lhs': 'X', 'nodes': ['T', 'T'], 'edges': [{'label': 'b', 'att': [0, 1]}, {'label': 'X', 'att': [1]}], 'ext': [0]},
        {'lhs': 'Y', 'nodes': ['T'], 'edges': [{'label': 'Y', 'att': [0]}, {'label': 'c', 'att': [0]}], 'ext': [0]}], {'b': UT, 'c': [0.5, 0.75], 'e': [0.5, 1.0]})
+    # scalar SCC of three nonterminals with a chord (fill-in during block elimination), both insertion orders of A's recursive rules
+    for name, first in (('three_cycle_chord_BC', ('B', 'C')), ('three_cycle_chord_CB', ('C', 'B'))):
+        ar = {'B': {'lhs': 'A', 'nodes': [], 'edges': [{'label': 'p', 'att': []}, {'label': 'B', 'att': []}], 'ext': []},
+              'C': {'lhs': 'A', 'nodes': [], 'edges': [{'label': 'q', 'att': []}, {'label': 'C', 'att': []}], 'ext': []}}
+        g(name, {'S': [], 'A': [], 'B': [], 'C': []}, {'p': [], 'q': [], 'e': [], 'r': [], 's': [], 'd': []},
+          [{'lhs': 'S', 'nodes': [], 'edges': [{'label': 'A', 'att': []}, {'label': 'd', 'att': []}], 'ext': []},
+           ar[first[0]], ar[first[1]],
+           {'lhs': 'A', 'nodes': [], 'edges': [{'label': 'e', 'att': []}], 'ext': []},
+           {'lhs': 'B', 'nodes': [], 'edges': [{'label': 'r', 'att': []}, {'label': 'C', 'att': []}], 'ext': []},
+           {'lhs': 'C', 'nodes': [], 'edges': [{'label': 's', 'att': []}, {'label': 'A', 'att': []}], 'ext': []}],
+          {'p': [1.0], 'q': [1.0], 'r': [0.5], 's': [0.5]})
     return S
 
 
